@@ -130,6 +130,17 @@ type caseRun struct {
 	rng      *rand.Rand
 	ctx      context.Context
 	aborted  bool
+	// The accessor cache force-closes an evicted accessor whose references were not released within
+	// one minute (store/cache/accessor_cache.go, defaultCloseTimeout). A held reference to an evicted
+	// accessor is therefore only read while that grace period cannot have expired (DESIGN.md §11: the
+	// close time-out is C08's, not modelled here); a case that would cross it is given up, not judged.
+	heldEvictedAt time.Time
+}
+
+const graceLimit = 35 * time.Second
+
+func (c *caseRun) graceExpired() bool {
+	return c.held != nil && !c.heldEvictedAt.IsZero() && time.Since(c.heldEvictedAt) > graceLimit
 }
 
 func (c *caseRun) count(k string, n int64) { c.counters[k] += n }
@@ -148,6 +159,13 @@ func (c *caseRun) describe() map[string]any {
 }
 
 func (c *caseRun) violate(sig, what string) {
+	if c.graceExpired() && strings.Contains(what, "accessor is closed") {
+		if !c.aborted {
+			c.count("cases_given_up_cache_grace_period", 1)
+		}
+		c.aborted = true
+		return
+	}
 	c.count("violations", 1)
 	c.rep.Violate(sig, fmt.Sprintf("%s [history %v, step %d, %v, recent cache %v, serving cache %v]", what,
 		c.Edge.Hist, c.step, c.Layout, c.Edge.Trail[0].CfgR, c.Edge.Trail[0].CfgS), c.describe())
@@ -303,6 +321,13 @@ func (c *caseRun) warmFrac() float64 {
 func (c *caseRun) doStep(a string, before, after Abs) {
 	b := c.blk
 	c.count("action_"+a, 1)
+	if c.held != nil && c.heldEvictedAt.IsZero() && before.Held.Open && before.Held.Kind == "ref" &&
+		before.Held.Which != "own" && after.Held.Open && after.Held.Which == "own" {
+		c.heldEvictedAt = time.Now() // this step takes the held accessor out of its cache
+	}
+	if a == "CloseHeld" || a == "HoldStore" || a == "HoldCached" {
+		c.heldEvictedAt = time.Time{}
+	}
 	switch a {
 	case "PutODSQ4":
 		if err := c.st.PutODSQ4(c.ctx, b.Roots, heightH, b.EDS); err != nil {
@@ -369,7 +394,7 @@ func (c *caseRun) doStep(a string, before, after Abs) {
 			c.drift("Close of the held accessor: %v", err)
 		}
 		if before.Held.Kind == "owned" {
-			c.oracle().afterClose(c.held, readOpts{path: "closed accessor", tag: objTag(before.Held.Obj)})
+			c.oracle().afterClose(c.held, readOpts{path: "closed accessor", tag: objTag(before.Held.Obj)}, before.Held.Obj.Level != "cold")
 		}
 		c.held = nil
 	case "GetterReadAll":
@@ -445,7 +470,7 @@ func (c *caseRun) probe() {
 			c.drift("%s: Close: %v", name, err)
 		}
 		if op.Found && op.Via == "file" {
-			o.afterClose(acc, readOpts{path: name + " (closed)", tag: tag})
+			o.afterClose(acc, readOpts{path: name + " (closed)", tag: tag}, true)
 		}
 	}
 	open("Store.GetByHeight", func() (eds.AccessorStreamer, error) { return c.st.GetByHeight(c.ctx, heightH) }, &p.Store, "store")
@@ -550,7 +575,7 @@ func (c *caseRun) probePlain() {
 		acc := eds.WithClosedOnce(inner)
 		o.readAll(acc, readOpts{path: "close-once over file.ODSQ4", tag: "closeonce:" + q4tag, plain: true, pred: nil, warmFrac: 0})
 		_ = acc.Close()
-		o.afterClose(acc, readOpts{path: "close-once over file.ODSQ4 (closed)", tag: "closeonce:" + q4tag})
+		o.afterClose(acc, readOpts{path: "close-once over file.ODSQ4 (closed)", tag: "closeonce:" + q4tag}, false)
 		c.count("wrapper_closeonce", 1)
 	}
 }
@@ -575,9 +600,18 @@ func (c *caseRun) run() {
 	if !c.openStore() {
 		return
 	}
+	defer func() {
+		if c.held != nil {
+			_ = c.held.Close()
+		}
+	}()
 	tr := c.Edge.Trail
 	for i, a := range c.Edge.Hist {
 		c.step = i + 1
+		if c.graceExpired() {
+			c.count("cases_given_up_cache_grace_period", 1)
+			return
+		}
 		c.doStep(a, tr[i], tr[i+1])
 		if c.aborted {
 			return
@@ -585,10 +619,11 @@ func (c *caseRun) run() {
 		c.checkDisk(tr[i+1])
 	}
 	c.step = len(c.Edge.Hist) + 1
-	c.probe()
-	if c.held != nil {
-		_ = c.held.Close()
+	if c.graceExpired() {
+		c.count("cases_given_up_cache_grace_period", 1)
+		return
 	}
+	c.probe()
 }
 
 // ---------------------------------------------------------------------------------------------------
